@@ -657,12 +657,12 @@ def check_c19(tier, seed, replay=None):
         raise
     if replay:
         return do_replay(pid, "dbg", "c19", replay)
-    merged = run_shards("dbg", "c19", tier, seed, timeout=3600, nshards=15, crash_property="C19")
+    merged = run_shards("dbg", "c19", tier, seed, timeout=3600, nshards=16, crash_property="C19")
     tools = [tool_summary("native threads (2/4/16 per group) with hook-injected yields", merged)]
     try:
         miri_prepare()
         nseeds = 4 if tier == "quick" else 16
-        mi = run_miri("c19", tier, seed, {"small": 1, "queries": 6}, nprocs=15, timeout=2400 if tier == "quick" else 14000, miriflags="-Zmiri-many-seeds=0..%d" % nseeds, crash_property="C19")
+        mi = run_miri("c19", tier, seed, {"small": 1, "queries": 6}, nprocs=16, timeout=2400 if tier == "quick" else 14000, miriflags="-Zmiri-many-seeds=0..%d" % nseeds, crash_property="C19")
         ts = tool_summary("Miri data-race detector + weak-memory emulation, %d scheduler seeds per pattern" % nseeds, mi)
         ts["miri_seeds"] = nseeds
         tools.append(ts)
@@ -677,17 +677,17 @@ def check_c19(tier, seed, replay=None):
             tsan_env = {"TSAN_OPTIONS": "halt_on_error=1:exitcode=66"}
             reps = 0
             for r in range(6):
-                t = run_shards("tsan", "c19", tier, seed + r, mem_gb=None, env=tsan_env, timeout=3600, nshards=15, crash_property="C19", opts={"queries": 400})
+                t = run_shards("tsan", "c19", tier, seed + r, mem_gb=None, env=tsan_env, timeout=3600, nshards=16, crash_property="C19", opts={"queries": 400})
                 merged.merge(t)
                 reps += 1
             tools.append(dict(tool="ThreadSanitizer (-Zsanitizer=thread -Zbuild-std)", repetitions=reps, reports=len([c for c in merged.crashes if c.get("returncode") == 66])))
         except HarnessError as e:
             merged.notes.append("TSan stage unavailable: %s" % str(e)[:300])
             tools.append(dict(tool="ThreadSanitizer", unavailable=str(e)[:300]))
-    rule = ("static: the harness contains assert_send_sync::<Regex/Match/Error/Flags>() (a failing build is reported as a violation). Dynamic: 15 patterns x a multiset of queries (haystack, start, entry point, early iterator drop); the sequential specification is each query alone on a freshly compiled Regex; then (a) all queries in shuffled order on one Regex in one thread, (b) groups of 2, 4 and 16 threads sharing one Arc<Regex> plus per-thread clones, running shuffled overlapping subsets, including two live iterators advanced alternately, with the hook calling yield_now() every 1/3/7/50 engine steps; every result digest must equal the sequential one."
+    rule = ("static: the harness contains assert_send_sync::<Regex/Match/Error/Flags>() (a failing build is reported as a violation). Dynamic: 24 patterns (16 under Miri; incl. case-insensitive backreferences over characters whose code points agree in their low 8/16 bits, and patterns near the structural limits: 40-deep lookaheads / lookbehinds, 300 groups, 200 loops) x a multiset of queries (haystack, start, entry point, early iterator drop); the sequential specification is each query alone on a freshly compiled Regex; then (a) all queries in shuffled order on one Regex in one thread, (b) groups of 2, 4 and 16 threads sharing one Arc<Regex> plus per-thread clones, running shuffled overlapping subsets, including two live iterators advanced alternately, with the hook calling yield_now() every 1/3/7/50 engine steps; every result digest must equal the sequential one; (c) finally each query alone on a fresh Regex again (process-wide state)."
             " The same workload (small) runs under Miri with several scheduler seeds and, in the thorough tier, under ThreadSanitizer. A case is one (pattern, query, thread group, thread); all are non-trivial.")
     extra = dict(tools=tools, concurrent_queries=merged.c("concurrent_queries"), thread_groups=group_counters(merged.counters, "thread_groups."), thread_runs_with_injected_yields=merged.c("thread_runs_with_injected_yields"), static_send_sync_assertions=True)
-    return finish(pid, tier, seed, merged, rule, ASSUME_COMMON + ["holds by construction today (no interior mutability in CompiledRegex); this is a tripwire for a cache or scratch buffer added to the shared program"], extra_cov=extra, required=["concurrent_queries", "thread_groups.16", "static_send_sync_assertions"], t0=t0)
+    return finish(pid, tier, seed, merged, rule, ASSUME_COMMON + ["holds by construction today (no interior mutability in CompiledRegex); this is a tripwire for a cache or scratch buffer added to the shared program"], extra_cov=extra, required=["concurrent_queries", "thread_groups.16", "static_send_sync_assertions", "fresh_rechecks"], t0=t0)
 
 
 C15_VARIANTS = ["dbg", "idx", "safe", "idxsafe", "utf16", "nostd"]
@@ -930,9 +930,10 @@ CHECKS = {
         "C13",
         "c13",
         RULE_PROGRAMS + "haystacks are ASCII only, every byte offset is a start; non-trivial iff the UTF-8 entry point found at least one match.",
-        ["differential monitor between find_from_ascii and find_from"],
+        ["differential monitor between find_from_ascii and find_from", "second stage: the same monitor in the utf16 build, where literals are lowered to code point instructions instead of byte sequences (its counters are added to the first stage's)"],
         required=["pairs_with_nonascii_pattern"],
         extra=c13_extra,
+        extra_stages=[("utf16", "c13")],
     ),
 }
 
